@@ -98,8 +98,11 @@ type c09Run struct {
 	early  string                   // set when a reliable identifier was handed out again well inside the reaper's quarantine
 	born   map[byte][]time.Duration // tube id -> times (since the network started) at which its incarnations began to be created
 	pkts   map[byte][]c09Pkt        // tube id -> every packet that carried it: when sent, when its copies are delivered
+	ended  map[byte][]time.Duration // tube id -> times at which its incarnations finished closing on the creating side
 	wg     sync.WaitGroup
 }
+
+var c09Verbose = os.Getenv("VERIF_VERBOSE") != ""
 
 type c09Shut struct {
 	at  time.Duration
@@ -131,21 +134,24 @@ func (r *c09Run) reqDelivered(side int, id byte, born time.Duration) bool {
 	return false
 }
 
-// crossed: some packet carrying tube id was sent before one of the id's incarnations began to be created and was
-// (also) delivered afterwards, and before now: a frame that outlived its incarnation has reached a successor's end.
-// Frames carry no incarnation number, so nothing can tell it apart from the successor's own frames.
+// crossed: some packet carrying tube id outlived its incarnation - it was sent before an incarnation of the id began
+// to be created, or before one finished closing on its creating side, and was (also) delivered after that moment (and
+// before now). Frames carry no incarnation number: such a packet re-creates a tube object on the accepting side (a late
+// copy of the open request), parks in the reorder heap of whatever object holds the id (a late FIN), or is taken
+// for a frame of the successor - the id's state is polluted from then on, whichever incarnation shows the symptom.
 func (r *c09Run) crossed(id byte) (string, bool) {
 	now := r.p.Net.Elapsed()
 	r.mu.Lock()
 	defer r.mu.Unlock()
-	for _, b := range r.born[id] {
+	marks := append(append([]time.Duration{}, r.born[id]...), r.ended[id]...)
+	for _, b := range marks {
 		for _, p := range r.pkts[id] {
 			if p.sent >= b {
 				continue
 			}
 			for _, d := range p.dlv {
 				if d >= b && d <= now {
-					return fmt.Sprintf("a packet for id %d sent at %v was delivered at %v, after the incarnation created at %v had begun", id, p.sent, d, b), true
+					return fmt.Sprintf("a packet for id %d sent at %v was delivered at %v, across the creation / the end (on the creating side) of an incarnation of that id at %v", id, p.sent, d, b), true
 				}
 			}
 		}
@@ -322,6 +328,9 @@ func (r *c09Run) creator(wi int, w c09Worker) {
 		r.live[w.Side][relIdx][id] = c09Live{key, tb}
 		r.idOf[key] = id
 		r.born[id] = append(r.born[id], bornAt)
+		if c09Verbose {
+			fmt.Printf("C09-BORN %s id=%d at=%v rel=%v\n", key, id, bornAt, w.Rel)
+		}
 		r.bornOf[key] = bornAt
 		if sh, ok := r.shut[id]; ok && w.Rel {
 			r.prevOf[key] = sh
@@ -385,6 +394,9 @@ func (r *c09Run) creator(wi int, w c09Worker) {
 			rt.l.Unlock()
 		}
 		r.mu.Lock()
+		if didClose {
+			r.ended[id] = append(r.ended[id], r.p.Net.Elapsed())
+		}
 		if w.Rel && didClose {
 			r.shut[id] = c09Shut{r.p.Net.Elapsed(), rtt, key}
 		}
@@ -515,7 +527,7 @@ func (r *c09Run) handle(side int, tb Tube) {
 }
 
 func c09Scenario(c c09Case, v *vlib.Verdict) {
-	r := &c09Run{c: c, v: v, seen: map[string]int{}, opened: map[string]bool{}, idOf: map[string]byte{}, bornOf: map[string]time.Duration{}, shut: map[byte]c09Shut{}, prevOf: map[string]c09Shut{}, born: map[byte][]time.Duration{}, pkts: map[byte][]c09Pkt{}}
+	r := &c09Run{c: c, v: v, seen: map[string]int{}, opened: map[string]bool{}, idOf: map[string]byte{}, bornOf: map[string]time.Duration{}, shut: map[byte]c09Shut{}, prevOf: map[string]c09Shut{}, born: map[byte][]time.Duration{}, pkts: map[byte][]c09Pkt{}, ended: map[byte][]time.Duration{}}
 	for s := 0; s < 2; s++ {
 		for k := 0; k < 2; k++ {
 			r.live[s][k] = map[byte]c09Live{}
@@ -529,6 +541,9 @@ func c09Scenario(c c09Case, v *vlib.Verdict) {
 		r.mu.Lock()
 		r.pkts[pkt[0]] = append(r.pkts[pkt[0]], c09Pkt{sent, dlv, dir, len(pkt) > 1 && pkt[1]&1 != 0 && pkt[1]&4 != 0})
 		r.mu.Unlock()
+		if c09Verbose && len(pkt) >= 12 {
+			fmt.Printf("C09-PKT id=%d dir=%d sent=%v dlv=%v meta=%06b len=%d w4_8=%x w8_12=%x\n", pkt[0], dir, sent, dlv, pkt[1], len(pkt), pkt[4:8], pkt[8:12])
+		}
 	}
 	go r.acceptor(0)
 	go r.acceptor(1)
